@@ -84,9 +84,14 @@ _COMPILED = {}
 
 
 _TIMEOUTS = [0]
+LINES = []
 
 
-def outcome(jp, env, q, doc, nondet, cap=400):
+class _OverBudget(BaseException):
+    """More line events inside the traversal than the model's step bound allows (not an Exception: nothing may swallow it)."""
+
+
+def outcome(jp, env, q, doc, nondet, cap=400, line_budget=None):
     # one compiled query per (environment, text), re-applied to every later document: a traversal
     # abandoned by an earlier JSONPathRecursionError must leave nothing behind
     c = _COMPILED.get((id(env), q))
@@ -97,7 +102,7 @@ def outcome(jp, env, q, doc, nondet, cap=400):
             return {("escaped", "compile: " + type(err).__name__)}
 
     def one():
-        def go():
+        def go_plain():
             try:
                 return ("done", tuple(tuple(n.location) for n in c.find(doc)))
             except jp.JSONPathRecursionError:
@@ -106,6 +111,35 @@ def outcome(jp, env, q, doc, nondet, cap=400):
                 return ("escaped", "RecursionError")
             except Exception as err:  # noqa: BLE001
                 return ("escaped", type(err).__name__)
+
+        def go():
+            if line_budget is None:
+                return go_plain()
+            # bounded TIME as a count of executed lines inside the traversal code, not as wall-clock: the model bounds the number
+            # of machine steps (T8d_Linear), a step of the machine is one loop iteration of the code
+            import sys  # noqa: PLC0415
+            count = [0]
+
+            def local(frame, event, arg):
+                if event == "line":
+                    count[0] += 1
+                    if count[0] > line_budget:
+                        raise _OverBudget()
+                return local
+
+            def glob(frame, event, arg):
+                return local if event == "call" and frame.f_code.co_filename.endswith(("segments.py", "selectors.py")) else None
+
+            old = sys.gettrace()
+            sys.settrace(glob)
+            try:
+                res = go_plain()
+            except _OverBudget:
+                res = ("overbudget", f"more than {line_budget} lines")
+            finally:
+                sys.settrace(old)
+            LINES.append(count[0])
+            return res
 
         # the first two evaluations that do not finish get 20 s each, later ones 3 s: the check itself stays bounded
         timed_out, res = impl.with_timeout(20.0 if _TIMEOUTS[0] < 2 else 3.0, go)
@@ -277,7 +311,8 @@ def run(chk: core.Check, tier: str, seed: int) -> None:
                 for q in ("$..*", "$..[?@]"):
                     if _TIMEOUTS[0] >= 6:
                         break
-                    got = outcome(jp, env, q, doc, mode == "rnd", cap=8)
+                    # T8d_Linear: at most 4 (limit + 1) machine steps; one step is one loop iteration of at most ~60 lines here
+                    got = outcome(jp, env, q, doc, mode == "rnd", cap=8, line_budget=60 * 4 * (big + 1) + 400)
                     chk.evaluations += 1
                     chk.nontrivial.add((gkey, big, mode, q))
                     kinds = {o[0] for o in got}
@@ -287,6 +322,8 @@ def run(chk: core.Check, tier: str, seed: int) -> None:
                                       {"graph": {"kids": g["kids"], "obj": g["obj"], "cont": g["cont"]}, "limit": big, "mode": mode,
                                        "query": q, "expected": "raised", "observed": sorted(map(str, got))[:3]})
     chk.notes["cyclic_graphs_at_realistic_limits"] = len(seen_cyc)
+    if LINES:
+        chk.notes["traversal_lines_executed_until_the_error (max, bound 240 per level)"] = max(LINES)
     chk.traces += len(terminal)
     any_t = next(iter(terminal.values()))
     chk.sample({"graph": {"kids": any_t["kids"], "obj": any_t["obj"], "cont": any_t["cont"]}, "limit": any_t["limit"], "mode": any_t["mode"],
